@@ -25,8 +25,11 @@ import (
 	"testing"
 	"time"
 
+	"github.com/AdguardTeam/AdGuardDNS/internal/connlimiter"
 	"github.com/AdguardTeam/AdGuardDNS/internal/dnsserver"
 	"github.com/AdguardTeam/AdGuardDNS/internal/dnsserver/dnsservertest"
+	"github.com/AdguardTeam/AdGuardDNS/internal/dnsserver/netext"
+	"github.com/AdguardTeam/golibs/logutil/slogutil"
 	"github.com/miekg/dns"
 	"pgregory.net/rapid"
 	"verif.local/harness/vstat"
@@ -171,7 +174,14 @@ type vc18pEnv struct {
 // server returns the running server for (transport, limit), starting it on
 // first use.
 func (e *vc18pEnv) server(useTLS bool, limit int, deadline time.Duration) (s *vc18pSrv, err error) {
-	key := fmt.Sprintf("%t/%d/%s", useTLS, limit, deadline)
+	return e.serverLimited(useTLS, limit, deadline, false)
+}
+
+// serverLimited is like server; if limited, a connection limiter with stop 1
+// and resume 1 is put in front of the listener, so that the next connection is
+// only accepted once the previous one has been released.
+func (e *vc18pEnv) serverLimited(useTLS bool, limit int, deadline time.Duration, limited bool) (s *vc18pSrv, err error) {
+	key := fmt.Sprintf("%t/%d/%s/%t", useTLS, limit, deadline, limited)
 	if s = e.srvs[key]; s != nil {
 		return s, nil
 	}
@@ -189,6 +199,15 @@ func (e *vc18pEnv) server(useTLS bool, limit int, deadline time.Duration) (s *vc
 		MaxPipelineCount:   uint(limit),
 		MaxPipelineEnabled: true,
 	}
+	if limited {
+		lim, limErr := connlimiter.New(&connlimiter.Config{Logger: slogutil.NewDiscardLogger(), Stop: 1, Resume: 1})
+		if limErr != nil {
+			return nil, limErr
+		}
+
+		conf.ListenConfig = connlimiter.NewListenConfig(netext.DefaultListenConfig(nil), lim)
+	}
+
 	if deadline > 0 {
 		// As the production servers are configured: every request context
 		// carries a deadline.
@@ -217,6 +236,22 @@ func (e *vc18pEnv) server(useTLS bool, limit int, deadline time.Duration) (s *vc
 	e.srvs[key] = s
 
 	return s, nil
+}
+
+// stopAll shuts all servers down at the same time, so that servers that cannot
+// finish (which the checks report before) cost one bounded wait, not one each.
+func (e *vc18pEnv) stopAll() {
+	var wg sync.WaitGroup
+	for _, stop := range e.stops {
+		wg.Add(1)
+		go func() {
+			defer wg.Done()
+
+			stop()
+		}()
+	}
+
+	wg.Wait()
 }
 
 // vc18pDeadlocked reports whether the goroutine dump proves that a slot of a
@@ -264,11 +299,7 @@ func TestVerifC18Pipeline(t *testing.T) {
 		tlsConf: dnsservertest.CreateServerTLSConfig(vc18pTLSName),
 		srvs:    map[string]*vc18pSrv{},
 	}
-	t.Cleanup(func() {
-		for _, stop := range env.stops {
-			stop()
-		}
-	})
+	t.Cleanup(env.stopAll)
 
 	grace := time.Duration(vstat.Scale(2, 4)) * time.Millisecond
 
